@@ -1011,6 +1011,13 @@ func (tr *trans) footprintOf(env *Env, m Expr, fp *footprint) {
 					fp.whole[tr.arrHeap(t)] = true
 					return
 				}
+			case "allcells":
+				// allcells(T): every variable cell of type T (captured or address-taken variables)
+				te := TypeExpr{Kind: "name", Name: exprToQualified(x.Args[0])}
+				if t, _, _ := env.resolveType(te); t != nil {
+					fp.whole[tr.cellHeap(t)] = true
+					return
+				}
 			case "all":
 				// all(T.f) : the whole field heap ; all(T): cell heap
 				if s, ok := x.Args[0].(*ESel); ok {
